@@ -5,7 +5,7 @@
 //!   --mode stress : shared signals, several mutators per signal, one "clearer" using
 //!                   unregister_signal; canary + allocator monitors.
 //!   --mode owner  : one owner mutator per signal, full event log, offline snapshot checker.
-//! phases (Director): none | delay | raise
+//! phases (Director): none | delay | raise | istep (owner mode: nested delivery at a random instruction of every registry call)
 
 use std::collections::{HashMap, HashSet, VecDeque};
 use std::sync::atomic::{AtomicBool, AtomicI64, AtomicU32, AtomicU64, AtomicUsize, Ordering};
@@ -192,6 +192,72 @@ struct MutStats {
     it_cycles: u64,
 }
 
+// ---- instruction-step phase: a real delivery nested at the k-th instruction of a registry call of the owner
+#[allow(clippy::declare_interior_mutable_const)]
+const SL0: AtomicU64 = AtomicU64::new(0);
+static STEP_SIGS: [AtomicU64; 64] = [SL0; 64];
+static STEP_ARMED: AtomicU64 = AtomicU64::new(0);
+static STEP_FIRED: AtomicU64 = AtomicU64::new(0);
+static STEP_RIPS: std::sync::Mutex<Option<HashSet<(u8, usize)>>> = std::sync::Mutex::new(None);
+
+fn step_action(_k: u64, _rip: usize) {
+    let sig = STEP_SIGS[crate::tid() as usize % 64].load(Ordering::SeqCst) as c_int;
+    let seq = pool::SEQ.fetch_add(1, Ordering::SeqCst);
+    evlog::log(kind::SEND, sig as u64, seq);
+    crate::sig::queue_self(sig, seq as usize);
+}
+
+const STEP_SITES: [u32; 17] = [
+    site::HL_W_LOCKED, site::HL_W_ALLOC, site::HL_W_SWAPPED, site::HL_B_FIRST, site::HL_B_FLIP, site::HL_B_DONE,
+    site::HL_W_FREE, site::HL_W_FREED, site::REG_CLONED, site::REG_AFTER_SIGACTION, site::REG_BEFORE_PUBLISH, site::REG_DONE,
+    site::UNREG_CLONED, site::UNREG_BEFORE_PUBLISH, site::UNREG_DONE, site::REG_BEFORE_FALLBACK, site::REG_AFTER_FALLBACK,
+];
+
+/// Either step from the start of the call, or from the 1st/2nd arrival at one of the writer-side hook sites; the
+/// delivery fires k instructions later, k drawn from the measured length of that window.
+#[inline]
+fn step_arm(cfg: &Cfg, rng: &mut Rng, _op: usize, sig: c_int) {
+    if cfg.phase != "istep" {
+        return;
+    }
+    let t = crate::tid();
+    STEP_SIGS[t as usize % 64].store(sig as u64, Ordering::SeqCst);
+    STEP_ARMED.fetch_add(1, Ordering::Relaxed);
+    if rng.chance(1, 6) {
+        let gap = crate::istep::GAP[0].load(Ordering::Relaxed).max(24);
+        crate::istep::arm(1 + rng.below(gap + gap / 8 + 4), 100_000, step_action);
+    } else {
+        // the first eight sites (half-lock writer) are passed by every call, the rest by register or by unregister
+        let s = loop {
+            let s = *rng.pick(&STEP_SITES);
+            let reg_only = matches!(s, site::REG_CLONED | site::REG_AFTER_SIGACTION | site::REG_BEFORE_PUBLISH | site::REG_DONE | site::REG_BEFORE_FALLBACK | site::REG_AFTER_FALLBACK);
+            let unreg_only = matches!(s, site::UNREG_CLONED | site::UNREG_BEFORE_PUBLISH | site::UNREG_DONE);
+            if (reg_only && _op != 1) || (unreg_only && _op == 1) {
+                continue;
+            }
+            break s;
+        };
+        let gap = crate::istep::GAP[s as usize].load(Ordering::Relaxed).max(24);
+        crate::istep::plan_for(t, s, 1 + rng.below(2), 1 + rng.below(gap + gap / 8 + 4), 100_000, u64::MAX, u64::MAX, true, step_action);
+    }
+}
+
+#[inline]
+fn step_disarm(cfg: &Cfg, op: usize) {
+    if cfg.phase != "istep" {
+        return;
+    }
+    crate::istep::cancel_plan(crate::tid());
+    let (_n, fired, rip) = crate::istep::disarm();
+    if fired {
+        STEP_FIRED.fetch_add(1, Ordering::Relaxed);
+        let asite = crate::istep::state_of(crate::tid()).armed_site.load(Ordering::SeqCst) as u8;
+        if let Ok(mut g) = STEP_RIPS.lock() {
+            g.get_or_insert_with(HashSet::new).insert((asite.wrapping_add((op as u8) << 7), rip));
+        }
+    }
+}
+
 fn check_removed(idx: usize, expect_tid: Option<u32>) {
     let c = &POOL[idx];
     let inflight = c.in_progress.load(Ordering::SeqCst);
@@ -242,6 +308,7 @@ fn mutator(
     let max_live = if cfg.owner_mode { 4 } else { 3 };
     let mut ops = 0u64;
 
+    let step_rng = std::cell::RefCell::new(Rng::new(cfg.seed ^ (round << 24) ^ ((m as u64) << 4) ^ 0x1573));
     let remove_one = |l: Live, st: &mut MutStats| {
         let c = &POOL[l.idx];
         if c.in_progress.load(Ordering::SeqCst) != 0 {
@@ -249,7 +316,9 @@ fn mutator(
         }
         let begun = CLEAR_BEGUN[l.sig as usize].load(Ordering::SeqCst);
         evlog::log(kind::CALL, 2 | ((l.sig as u64) << 8), l.tag);
+        step_arm(cfg, &mut *step_rng.borrow_mut(), 2, l.sig);
         let r = signal_hook_registry::unregister(l.id);
+        step_disarm(cfg, 2);
         evlog::log(kind::RET, 2 | ((l.sig as u64) << 8), r as u64);
         director::lib_exit();
         st.unregisters += 1;
@@ -334,6 +403,7 @@ fn mutator(
             c.reg_ret_tick.store(0, Ordering::SeqCst);
             let guard = Guard { idx, gen, spin: (rng.below(4) * 40) as u32 };
             evlog::log(kind::CALL, 1 | ((s.sig as u64) << 8), tag);
+            step_arm(cfg, &mut *step_rng.borrow_mut(), 1, s.sig);
             let res = if rng.chance(1, 2) {
                 unsafe { signal_hook_registry::register(s.sig, move || guard.run(None)) }
             } else {
@@ -343,6 +413,7 @@ fn mutator(
                     })
                 }
             };
+            step_disarm(cfg, 1);
             evlog::log(kind::RET, 1 | ((s.sig as u64) << 8), res.is_ok() as u64);
             director::lib_exit();
             match res {
@@ -396,8 +467,10 @@ fn mutator(
             // ---- owner clears its own signal
             let s = my_sigs[0];
             evlog::log(kind::CALL, 3 | ((s.sig as u64) << 8), 0);
+            step_arm(cfg, &mut *step_rng.borrow_mut(), 3, s.sig);
             #[allow(deprecated)]
             let r = signal_hook_registry::unregister_signal(s.sig);
+            step_disarm(cfg, 3);
             evlog::log(kind::RET, 3 | ((s.sig as u64) << 8), r as u64);
             director::lib_exit();
             if !r {
@@ -764,6 +837,9 @@ pub fn main(args: &[String]) -> i32 {
     evlog::init(if owner_mode || shared_log { 4 << 20 } else { 1 << 16 });
     director::install();
     director::set_observer(Some(observer));
+    if phase == "istep" {
+        crate::istep::install();
+    }
     director::COVER.store(true, Ordering::SeqCst);
     crate::ALLOC_WATCH.store(true, Ordering::SeqCst);
     LOG_ACTIONS.store(owner_mode || shared_log, Ordering::SeqCst);
@@ -1086,6 +1162,10 @@ pub fn main(args: &[String]) -> i32 {
         .set("samples", J::Arr(samples))
         .set("mode", J::s(if owner_mode { "owner" } else if shared_log { "sharedlog" } else { "stress" }))
         .set("phase", J::s(&phase))
+        .set("istep_armed", J::u(STEP_ARMED.load(Ordering::SeqCst)))
+        .set("istep_fired", J::u(STEP_FIRED.load(Ordering::SeqCst)))
+        .set("istep_distinct_points", J::u(STEP_RIPS.lock().map(|g| g.as_ref().map(|h| h.len()).unwrap_or(0)).unwrap_or(0) as u64))
+        .set("istep_traps", J::u(crate::istep::TOTAL_TRAPS.load(Ordering::SeqCst)))
         .set("seed", J::u(seed))
         .set("rounds", J::u(cfg.rounds))
         .set("registers", J::u(total.registers))
